@@ -992,16 +992,14 @@ int vf_main(int argc, char** argv, const char* property,
   double t0 = now();
   double wleft = wsum;
   int engine_errors = 0, nviol = 0;
-  for (size_t k = 0; k < sel.size(); ++k) {
+  auto run_one = [&](size_t k, double budget, const char* note) {
     VfCase& c = cases[sel[k]];
     int b     = thorough ? c.thorough_bound : c.quick_bound;
     if (opt.bound_override != -100)
       b = opt.bound_override;
     if (b > VF_MAXDEV)
       b = VF_MAXDEV;
-    double left   = opt.deadline - (now() - t0);
-    double budget = left > 0 ? left * c.weight / wleft : 0.5;
-    wleft -= c.weight;
+    all[k] = CaseStats();
     explore_case(c, b, budget, all[k]);
     CaseStats& s = all[k];
     printf("CASE %s bound=%d/%d exhaustive=%d execs=%llu states=%llu "
@@ -1014,6 +1012,8 @@ int vf_main(int argc, char** argv, const char* property,
            (unsigned long long)s.distinct_outcomes, s.base_choice_points,
            s.threads, s.npromo, s.restarts, s.nviol, s.wall,
            s.engine_errors ? " ENGINE-ERROR" : "");
+    if (note[0])
+      printf("#   (%s)\n", note);
     if (s.engine_errors) {
       printf("ENGINE-ERROR case=%s %s\n", s.name.c_str(), s.engine_msg);
       engine_errors++;
@@ -1029,6 +1029,37 @@ int vf_main(int argc, char** argv, const char* property,
              s.name.c_str(), verdict_name(v.verdict), v.key, v.count, sb,
              v.replay_path, v.msg);
       nviol++;
+    }
+  };
+  for (size_t k = 0; k < sel.size(); ++k) {
+    VfCase& c     = cases[sel[k]];
+    double left   = opt.deadline - (now() - t0);
+    double budget = left > 0 ? left * c.weight / wleft : 0.5;
+    wleft -= c.weight;
+    run_one(k, budget, "");
+  }
+  // second pass: cases cut by their share of the deadline get what the others
+  // left unused (a case's share is fixed when it starts, so an expensive case
+  // early in the list would otherwise be cut while most of the deadline is
+  // never spent)
+  for (int pass = 0; pass < 2; ++pass) {
+    std::vector<size_t> again;
+    double w2 = 0;
+    for (size_t k = 0; k < sel.size(); ++k)
+      if (all[k].deadline_hit && !all[k].engine_errors && !all[k].nviol) {
+        again.push_back(k);
+        w2 += cases[sel[k]].weight;
+      }
+    for (size_t k : again) {
+      VfCase& c   = cases[sel[k]];
+      double left = opt.deadline - (now() - t0);
+      if (left < 2 * all[k].wall + 3) { // not enough to get further than before
+        w2 -= c.weight;
+        continue;
+      }
+      double budget = left * c.weight / w2;
+      w2 -= c.weight;
+      run_one(k, budget, "re-run with the unused part of the deadline");
     }
   }
   double wall = now() - t0;
